@@ -120,9 +120,17 @@ theorem relOf_foldl_removeEmptyRel (xs : List Nat) (rel : List (Nat × Rel)) (x 
   | nil => rfl
   | cons y ys ih => rw [List.foldl_cons, ih, relOf_removeEmptyRel]
 
-theorem same_joinCleanup (st : State) (as : List Nat) : Same st (joinCleanup st as) := by
+theorem same_joinCleanup (st : State) (s g : Nat) (as : List Nat) : Same st (joinCleanup st s g as) := by
   unfold joinCleanup
-  refine ⟨fun _ => rfl, fun _ => rfl, fun _ => rfl, ?_, ?_, ?_, fun _ h => h⟩
+  refine ⟨?_, ?_, fun _ => rfl, ?_, ?_, ?_, fun _ h => h⟩
+  · intro k; unfold membersOf; simp only [get_alter]
+    by_cases e : k = (s, g)
+    · rw [if_pos e, gsNorm_bind_members, e]
+    · rw [if_neg e]
+  · intro k; unfold listenersOf; simp only [get_alter]
+    by_cases e : k = (s, g)
+    · rw [if_pos e, gsNorm_bind_listeners, e]
+    · rw [if_neg e]
   · intro x; unfold relMem relOf; simp only [relOf_foldl_removeEmptyRel]
   · intro x; unfold relGmon relOf; simp only [relOf_foldl_removeEmptyRel]
   · intro x; unfold relWmon relOf; simp only [relOf_foldl_removeEmptyRel]
